@@ -1627,8 +1627,88 @@ def apply(repo) -> dict:
     # `def ids(self): return self._helper(..)` with a new generator `_helper`: the function hands on the helper's
     # iterator, which is what `for y in self._helper(..): yield y` does for every consumer that only iterates
     new0 = {k: f for k, f in repo.functions.items() if k not in known}
+    # `while helper(..): BODY` with a new helper: the call moves into the loop (`while True: t = helper(..); if not t:
+    # break; BODY`), where it can be inlined like any other statement
+    if new0:
+        wn = [0]
+        for f in list(repo.functions.values()):
+            class W(ast.NodeTransformer):
+                def visit_FunctionDef(self, n):
+                    return self.generic_visit(n) if n is f.node else n
+
+                def visit_While(self, n):
+                    self.generic_visit(n)
+                    t, neg = n.test, False
+                    while isinstance(t, ast.UnaryOp) and isinstance(t.op, ast.Not):
+                        t, neg = t.operand, not neg
+                    if isinstance(t, ast.Call) and repo.resolve_call(f, t) in new0 and not n.orelse:
+                        wn[0] += 1
+                        v = f"_w{wn[0]}"
+                        a = ast.Assign([ast.Name(v, ast.Store())], t)
+                        cond = ast.Name(v, ast.Load()) if neg else ast.UnaryOp(ast.Not(), ast.Name(v, ast.Load()))
+                        brk = ast.If(cond, [ast.Break()], [])
+                        body = [x for x in n.body if not isinstance(x, ast.Pass)]
+                        new_ = ast.While(ast.Constant(True), [a, brk] + body, [])
+                        for x in (a, brk, new_):
+                            ast.copy_location(x, n)
+                        ast.fix_missing_locations(new_)
+                        for y in ast.walk(new_):
+                            if hasattr(y, "lineno") and y not in ast.walk(ast.Module(body, [])):
+                                pass
+                        return new_
+                    return n
+            W().visit(f.node)
+        if wn[0]:
+            repo.reindex()
+            new0 = {k: f for k, f in repo.functions.items() if k not in known}
     gens0 = {k for k, f in new0.items() if eligible_generator(f.node)}
     if gens0:
+        # `xs = [E(a) for a in new_generator(..)]`  ->  `xs = []; for a in new_generator(..): xs.append(E(a))`, so that the
+        # generator's loop can take the place of the call
+        for f in list(repo.functions.values()):
+            if f.key in gens0:
+                continue
+
+            def lower(body: list) -> bool:
+                ch = False
+                k = 0
+                while k < len(body):
+                    st = body[k]
+                    if isinstance(st, ast.Assign) and len(st.targets) == 1 and isinstance(st.targets[0], ast.Name) \
+                            and isinstance(st.value, (ast.ListComp, ast.SetComp)) and len(st.value.generators) == 1 \
+                            and not st.value.generators[0].is_async and isinstance(st.value.generators[0].iter, ast.Call) \
+                            and repo.resolve_call(f, st.value.generators[0].iter) in gens0:
+                        g = st.value.generators[0]
+                        X = st.targets[0].id
+                        meth = "append" if isinstance(st.value, ast.ListComp) else "add"
+                        inner: list[ast.stmt] = [ast.Expr(ast.Call(ast.Attribute(ast.Name(X, ast.Load()), meth, ast.Load()), [st.value.elt], []))]
+                        for c in reversed(g.ifs):
+                            inner = [ast.If(c, inner, [])]
+                        lp = ast.For(g.target, g.iter, inner, [])
+                        for y in ast.walk(g.target):
+                            if isinstance(y, ast.Name):
+                                y.ctx = ast.Store()
+                        init = ast.Assign([ast.Name(X, ast.Store())], ast.List([], ast.Load()) if meth == "append"
+                                          else ast.Call(ast.Name("set", ast.Load()), [], []))
+                        for x in (init, lp):
+                            ast.copy_location(x, st)
+                            ast.fix_missing_locations(x)
+                            for y in ast.walk(x):
+                                if hasattr(y, "lineno"):
+                                    y.lineno = y.end_lineno = st.lineno
+                        body[k:k + 1] = [init, lp]
+                        ch = True
+                        k += 1
+                    elif not isinstance(st, (ast.FunctionDef, ast.ClassDef)):
+                        for fld in ("body", "orelse", "finalbody"):
+                            b = getattr(st, fld, None)
+                            if isinstance(b, list) and b and isinstance(b[0], ast.stmt):
+                                ch |= lower(b)
+                        for h in getattr(st, "handlers", []) or []:
+                            ch |= lower(h.body)
+                    k += 1
+                return ch
+            lower(f.node.body)
         for f in list(repo.functions.values()):
             if f.key in gens0:
                 continue
